@@ -287,6 +287,17 @@ pub fn run(tier: Tier, seed: u64) -> i32 {
                     b.count("prm_second_query_sharing_the_goal_object", 1);
                 }
             }
+            if h.params.kind == PKind::Prm && i % 5 == 4 {
+                // definitions that come and go: P1 answered, P2 set but never queried, then a new
+                // definition (P1's start, P2's goal) allocated after P1's was freed
+                let mut p3 = h.problems[0].clone();
+                p3.goal = h.problems[1].goal.clone();
+                p3.infeasible = None;
+                h.problems[0].tags.push("drop-old-definitions".into());
+                h.problems.push(p3);
+                h.ops = vec![Op::Setup(0), Op::Construct, Op::Solve(10), Op::SetPd(1), Op::SetPd(2), Op::Solve(10), Op::SetPd(0), Op::SetPd(1), Op::Solve(10)];
+                b.count("prm_histories_with_short_lived_definitions", 1);
+            }
             with_kit!(h.problems[0].spec, K, kit => run_one::<K>(&ctx, &mut b, &kit, &h, Trigger::None));
             i += shards;
         }
